@@ -144,7 +144,7 @@ def theorems_of(prop_mod):
         m = re.match(r"\s*end\s+([\w.]+)", line)
         if m and ns and ns[-1].endswith(m.group(1)):
             ns.pop(); continue
-        m = re.match(r"\s*(?:private\s+|protected\s+)?theorem\s+([\w.']+)", line)
+        m = re.match(r"\s*(?:protected\s+)?theorem\s+([\w.']+)", line)   # private helpers are not obligations
         if m:
             out.append(".".join(ns + [m.group(1)]))
     return out
